@@ -22,7 +22,7 @@ PROPERTY = "C04"
 LEVEL = "model_checking"
 RULE = (
     "U-PROB problems (levels 0,1 complete; level 2: core pairs of two effect slots of one action, or "
-    "an effect slot with inv/undef; thorough: all core pairs); all sequences of length 0..k "
+    "an effect slot with inv/undef/goal; thorough: all core pairs); all sequences of length 0..k "
     "(not extended past a reference-inapplicable step) x all strictly increasing start-time vectors "
     "over the grid; non-trivial = plan with >= 1 applicable step whose verdict is decided by bounds, "
     "invariants, conflicts or goals"
@@ -51,7 +51,7 @@ def _ids(tier):
             if level == 2 and tier == "quick":
                 names = [s for s, _ in cid]
                 same_action = any(all(n in v for n in names) for v in effs.values())
-                mixed = any(n in all_eff for n in names) and any(n in ("inv", "undef") for n in names)
+                mixed = any(n in all_eff for n in names) and any(n in ("inv", "undef", "goal") for n in names)
                 if not (same_action or mixed):
                     continue
             out.append((level, cid))
